@@ -122,6 +122,41 @@ pub fn inputs(thorough: bool) -> Vec<Input> {
     v
 }
 
+/// Child (PATH without a formatter): every embedded input with `rustfmt: true`; prints `MISMATCH <key> <what>` lines.
+pub fn nofmt_child(tier: &str) -> i32 {
+    let thorough = tier == "thorough";
+    let ins: Vec<_> = inputs(thorough).into_iter().filter(|i| thorough || !i.key.starts_with("long|") || i.key.starts_with("long|160|")).collect();
+    let res = par_map(&ins, |i| {
+        let off = generate(&i.src, &Config::default());
+        if !matches!(off, Outcome::Ok(_)) {
+            return None;
+        }
+        Some(match generate(&i.src, &Config { rustfmt: true, ..Config::default() }) {
+            Outcome::Ok(t) => match source_value(&t) {
+                Ok(Val::Str(s)) if s == i.src => None,
+                Ok(Val::Str(s)) => {
+                    let pos = s.bytes().zip(i.src.bytes()).position(|(a, b)| a != b).unwrap_or(s.len().min(i.src.len()));
+                    Some(format!("SOURCE differs from the input at byte {pos} (lengths {} vs {})", s.len(), i.src.len()))
+                }
+                Ok(o) => Some(format!("SOURCE is not a string literal: {}", format!("{o:?}").chars().take(60).collect::<String>())),
+                Err(e) => Some(format!("generated module is not readable: {}", e.chars().take(80).collect::<String>())),
+            },
+            other => Some(format!("the call fails: {}", other.class())),
+        })
+    });
+    let mut checked = 0;
+    for (i, r) in ins.iter().zip(res.iter()) {
+        if let Some(r) = r {
+            checked += 1;
+            if let Some(what) = r {
+                println!("MISMATCH {} {}", i.key.replace(' ', "_"), what.replace('\n', " "));
+            }
+        }
+    }
+    println!("CHECKED {checked}");
+    0
+}
+
 fn source_value(text: &str) -> Result<Val, String> {
     let m = omodel::parse(text)?;
     m.top_const("SOURCE").map(|c| c.val.clone()).ok_or_else(|| "no SOURCE constant".to_string())
@@ -209,6 +244,35 @@ pub fn run(tier: &str) -> i32 {
         let n = i.key.split('|').nth(1).map(|s| s.split('.').filter(|x| !x.is_empty()).count()).unwrap_or(0);
         if n <= 1 || thorough || i.key.starts_with("ident") {
             compiled.push((idx, text.clone()));
+        }
+    }
+    // ---- formatter requested but not available (a process whose PATH has no rustfmt): the returned text is the
+    // unformatted one, and its SOURCE must still evaluate to the input
+    {
+        let empty = std::path::Path::new(&std::env::var("VERIF_ROOT").unwrap_or_else(|_| ".".into())).join("target/c16-empty-path");
+        let _ = std::fs::create_dir_all(&empty);
+        let out = std::process::Command::new(std::env::current_exe().unwrap()).args(["c16-nofmt", tier]).env("PATH", &empty).stderr(std::process::Stdio::null()).output();
+        match out {
+            Ok(o) if o.status.success() => {
+                let text = String::from_utf8_lossy(&o.stdout);
+                let mut checked = 0u64;
+                for line in text.lines() {
+                    if let Some(n) = line.strip_prefix("CHECKED ") {
+                        checked = n.trim().parse().unwrap_or(0);
+                    } else if let Some(rest) = line.strip_prefix("MISMATCH ") {
+                        let (key, what) = rest.split_once(' ').unwrap_or((rest, ""));
+                        let src = ins.iter().find(|i| i.key == key).map(|i| i.src.clone()).unwrap_or_default();
+                        rep.violation(format!("{key}|fmt=unavailable"), format!("formatter requested but not on PATH: {what}"), json!({"wgsl": src, "config": "rustfmt, PATH without a formatter"}));
+                    }
+                }
+                if checked == 0 {
+                    machinery("C16: the no-formatter child checked nothing");
+                }
+                rep.evaluations += checked;
+                rep.set("inputs_checked_without_a_formatter_on_path", json!(checked));
+            }
+            Ok(o) => machinery(&format!("C16: no-formatter child failed: {:?}", o.status)),
+            Err(e) => machinery(&format!("C16: cannot start the no-formatter child: {e}")),
         }
     }
     // ---- free-running concurrent leg (not exhaustive: real threads released together, a few rounds). Several large
